@@ -51,14 +51,26 @@ def cb(b):
     return True if b else False
 
 
-def texts(name, mask):
+# value lists: distinct markers, and the values a careless `if value:` / `value or ..` treats as missing (zero, empty string, FALSE, 0.0)
+VALSETS = [VAL, [0, '', False, 0.0, 'x y', -1]]
+
+
+def sql_literal(v):
+    if isinstance(v, bool):
+        return 'TRUE' if v else 'FALSE'
+    if isinstance(v, str):
+        return "'" + v + "'"
+    return str(v)
+
+
+def texts(name, mask, VAL=VAL):
     tmpl, k = SKELETONS[name]
     prepared = tmpl.format(*['?' if mask[i] else str(LIT[i]) for i in range(k)])
     n = sum(1 for i in range(k) if mask[i])
     vals, j, parts = [], 0, []
     for i in range(k):
         if mask[i]:
-            parts.append(str(VAL[j]))
+            parts.append(sql_literal(VAL[j]))
             vals.append(VAL[j])
             j += 1
         else:
@@ -87,9 +99,16 @@ def plan_repr(steps):
 
 def leaf(name, mask, delta):
     """returns list of problems; delta in (-1, 0, 1): how many values too few / too many are supplied"""
+    out = []
+    for vi, vs in enumerate(VALSETS):
+        out += ['%s%s' % (p_, '' if vi == 0 else ' [values %r]' % (vs,)) for p_ in _leaf(name, mask, delta, vs)]
+    return out
+
+
+def _leaf(name, mask, delta, vset):
     from mindsdb_sql import parse_sql
     from mindsdb_sql.exceptions import PlanningException
-    prepared, inlined, vals, n = texts(name, mask)
+    prepared, inlined, vals, n = texts(name, mask, vset)
     problems = []
     try:
         q = parse_sql(prepared, 'mindsdb')
@@ -138,7 +157,7 @@ def leaf(name, mask, delta):
     # call sequence: a second execute of the same prepared statement either plans the second value list correctly or is refused
     # with PlanningException - never an internal error, never a plan for other values
     if n > 0 and gerr is None:
-        vals2 = [v + 1000 for v in vals]
+        vals2 = [2000 + i_ for i_ in range(len(vals))]
         try:
             got2 = plan_repr(list(planner.execute_steps(vals2)))
             tmpl, k = SKELETONS[name]
